@@ -62,7 +62,7 @@ PROPS = {
     "C16": {
         "chain": [chain("gov", 24, 25, 300, 40), chain("all", 16, 25, 200, 40)],
         "pure": [{"kinds": ["entparams", "regparams", "strparams"], Q: 1500, T: 100000}],
-        "corpus": ["witness"],
+        "corpus": ["witness", "regress"],
         "relevant": rel_kinds(("I", "K", "B", "E", "D ent.params", "D wrk.params", "D bcn.params", "D str.params"), lambda k: k.endswith(".params")),
         "level_text": "Proof: c16_params_always_valid (the stored parameters of all four modules satisfy the validity rules written from the statement in every state of every run), c16_*_validate_sound (the code's Validate implies the rules), c16_invalid_update_rejected (an update is stored only if the whole set validates and the authority is the gov module), c16_new_values_used (every use reads the state).",
         "level_note": "Theorems are about the Lean model; Params.Validate of all four modules is compared with the model's validate on boundary-heavy generated parameter structures (vpure) and parameter changes go through real governance in the chain engine, every run. The int(MinAccepts) defect was repaired by a fix: commit; its witness stays in the corpus.",
@@ -70,7 +70,7 @@ PROPS = {
     },
     "C10": {
         "chain": [chain("stream", 24, 25, 300, 40), chain("all", 16, 25, 200, 40), chain("gov", 8, 20, 100, 30)],
-        "corpus": ["witness"],
+        "corpus": ["witness", "regress"],
         "relevant": rel_kinds(("I", "K", "B", "E", "D str.", "D bank.bal", "D bank.fees"), is_str),
         "level_text": "Proof: c10_escrow_eq_sum_deposits (in every state of every run the stream escrow holds per denomination exactly the sum of the remaining deposits, all non-negative), c10_only_stream_ops_move_escrow, c10_send_to_escrow_rejected, c10_release_conserves_and_fee_split (total = payment + fee, fee = floor(total x rate), deposit shrinks by exactly the total), c10_topup_adds_exactly.",
         "level_note": STR_NOTE + " Signer tracking (MaySign/GrantsOK) shows that no message whose funds come from the escrow account itself can execute; this rests on the modelled cryptographic assumption that nobody holds a key for a module address.",
@@ -79,7 +79,7 @@ PROPS = {
     "C11": {
         "chain": [chain("stream", 24, 25, 300, 40), chain("all", 16, 25, 200, 40)],
         "pure": [{"kinds": ["dur", "claim", "valfee", "addsec"], Q: 2000, T: 200000}],
-        "corpus": ["witness"],
+        "corpus": ["witness", "regress"],
         "relevant": rel_kinds(("I", "K", "B", "E", "D str."), lambda k: k.startswith("str.")),
         "level_text": "Proof: c11_release_amount (before zero time exactly min(deposit, rate x whole seconds), at/after it the whole remainder), c11_never_faster, c11_zero_time_on_create (now + floor(D/r) s), c11_solvency (every stored stream in every state of every run: rate>=1, last<=now, rate x floor(zero-last) <= deposit or empty-and-expired), c11_remainder_covers_rest, c11_cancel_refunds_unreleased.",
         "level_note": STR_NOTE,
@@ -88,7 +88,7 @@ PROPS = {
     "C12": {
         "chain": [chain("stream", 24, 25, 300, 40), chain("all", 16, 25, 200, 40)],
         "pure": [{"kinds": ["dur", "claim", "valfee", "addsec"], Q: 2000, T: 200000}],
-        "corpus": ["witness"],
+        "corpus": ["witness", "regress"],
         "relevant": rel_kinds(("I", "K", "B", "E", "D str."), lambda k: k.startswith("str.")),
         "level_text": "Proof: c12_arithmetic_never_panics (CalculateValidatorFee total for every amount and fee in [0,1]; duration and claim arithmetic are total functions), c12_claim_succeeds and c12_cancel_succeeds (for every funded stream in every state of every run the claim / the sender's cancel returns ok), c12_fee_rate_always_valid.",
         "level_note": STR_NOTE + " Top-ups whose resulting duration exceeds ~292 years are rejected with an error by design of the repair (not a panic, funds not stranded).",
@@ -96,7 +96,7 @@ PROPS = {
     },
     "C07": {
         "chain": [chain("reg", 24, 25, 300, 40), chain("all", 16, 25, 200, 40), chain("authz", 8, 20, 100, 30)],
-        "corpus": ["witness"],
+        "corpus": ["witness", "regress"],
         "relevant": rel_kinds(REG_TAGS, is_reg),
         "level_text": "Proof: c07_records_immutable (a stored record is returned unchanged or pruned in every later state of every run, never overwritten, never back), c07_no_backfill, c07_wrk_record_accepts_only_higher, c07_bcn_ids_consecutive (+ first id is 1), c07_rejected_tx_changes_nothing; all unbounded in the number and interleaving of operations.",
         "level_note": REG_NOTE,
@@ -104,7 +104,7 @@ PROPS = {
     },
     "C08": {
         "chain": [chain("reg", 24, 25, 300, 40), chain("all", 16, 25, 200, 40), chain("authz", 8, 20, 100, 30), chain("gov", 8, 20, 100, 30)],
-        "corpus": ["witness"],
+        "corpus": ["witness", "regress"],
         "relevant": rel_kinds(REG_TAGS, is_reg),
         "level_text": "Proof: in every reachable state BEACON retains exactly the contiguous newest ids first..last with num = last-first+1 <= limit (c08_bcn_retained_is_newest), WRKChain retains a strictly increasing key list whose length, head and bound are the reported counters (c08_wrk_counters_match_store); each accepted record prunes exactly the oldest when full (c08_*_prune_one_at_a_time); the limit starts at the default, changes only by an owner's purchase, by exactly n, never above max (c08_purchase_raises_by_exactly_n, c08_limit_changes_only_by_purchase); remaining capacity = max(0,max-limit).",
         "level_note": REG_NOTE + " The two genuine defects found here (uint64 wrap of InStateLimit+Number; wrapped *Storage query) were repaired by fix: commits; their witnesses stay in the corpus.",
@@ -112,7 +112,7 @@ PROPS = {
     },
     "C09": {
         "chain": [chain("reg", 24, 25, 300, 40), chain("signer", 16, 20, 200, 30), chain("all", 16, 25, 200, 40)],
-        "corpus": ["witness"],
+        "corpus": ["witness", "regress"],
         "relevant": rel_kinds(REG_TAGS, is_reg),
         "level_text": "Proof: c09_ids_sequential_and_fields_verbatim, c09_first_id_is_genesis_start, c09_ids_never_reused, c09_registration_frozen (id/owner/moniker/name/type/genesis/regtime identical in every later state of every run), c09_only_owner_writes, c09_unknown_or_foreign_rejected.",
         "level_note": REG_NOTE,
